@@ -146,7 +146,7 @@ package mqtt
 //@   mode int
 //@   props C01 C07 C11 C15 C19
 //@   requires c != nil && ctx != nil && c.Transport != nil && subscribable(subs)
-//@   assigns c.idLast
+//@   assigns c.idLast; subs[*]
 //@   let sig0 *signaller = c.sig
 //@   let n0 int = len(subs)
 //@   loop 1 invariant 0 <= i && i <= len(subAck.Codes) && forall(0, i, func(j int) bool { return subs[j].QoS == QoS(subAck.Codes[j]) })
@@ -181,7 +181,7 @@ package mqtt
 //@   mode int
 //@   props C01 C19
 //@   requires cli != nil && ctx != nil && cli.Transport != nil && subscribable(subs)
-//@   assigns cli.idLast
+//@   assigns cli.idLast; subs[*]
 //@   ensures[C01,C19] redo: evCount("subscribeImpl") == 1 && evArg[*BaseClient]("subscribeImpl", 0, 1) == cli &&
 //@        sameSlice(evArg[[]Subscription]("subscribeImpl", 0, 2), subs) && result == evRet[error]("subscribeImpl", 0, 1)
 
